@@ -226,7 +226,7 @@ void Exec::op_damage(Client &) {
 	} else { T("  unknown damage kind"); return; }
 	bool changed = d != before;
 	T(strf("  damage %s %s at=%ld -> %d bytes changed=%d", kind.c_str(), path.c_str(), at, (int)d.size(), changed));
-	if (changed) { res.faults_fired["io." + kind]++; auto it = files.find(path); if (it != files.end()) it->second.damaged = true; else { FileInfo f; f.damaged = true; f.kind = "unknown"; files[path] = f; } }
+	if (changed) { res.faults_fired["io." + kind]++; auto it = files.find(path); if (it != files.end()) { it->second.damaged = true; it->second.hit = true; } else { FileInfo f; f.damaged = true; f.kind = "unknown"; files[path] = f; } }
 }
 
 // ------------------------------------------------------------------ foreign producer: the harness's own LP / MPS renderer
@@ -259,10 +259,14 @@ static std::string render_lp(const LP &m, long style) {
 	s += up ? "END\n" : "End\n"; return s;
 }
 static std::string render_mps(const LP &m, long style) {
-	std::string s = "NAME foreign\nROWS\n N obj\n";
+	std::string s = "NAME foreign\n";
+	if (m.objsense < 0) s += style % 2 ? "OBJSENSE\n    MAX\n" : "OBJSENSE\n MAXIMIZE\n"; else if (style % 3 == 1) s += "OBJSENSE\n    MIN\n";   // without the section an MPS file denotes a minimisation
+	s += "ROWS\n N obj\n";
 	bool extra_free = style % 11 == 5, ints = style % 4 == 1; bool in_int = false;
 	if (extra_free) s += " N zfree\n";   // a second free row: columns that only appear there are dropped by the reader
-	for (auto &r : m.rows) s += std::string(" ") + (r.sense == 'R' ? 'G' : r.sense) + " " + r.name + "\n";
+	// a ranged row lo <= a.x <= hi has five spellings in MPS: G lo with range w, L hi with range w or -w, E lo with +w, E hi with -w
+	auto rform = [&](size_t i) { return m.rows[i].range == 0 ? 0 : (int)((style / 3 + (long)i) % 5); };
+	for (size_t i = 0; i < m.rows.size(); i++) { const MRow &r = m.rows[i]; char sn = r.sense; if (sn == 'R') { int f = rform(i); sn = f == 0 ? 'G' : f <= 2 ? 'L' : 'E'; } s += std::string(" ") + sn + " " + r.name + "\n"; }
 	s += "COLUMNS\n";
 	if (extra_free) s += " zdrop zfree 1\n";
 	// an SOS set around a run of columns (files in the wild carry them; the solver ignores the sets, the reader has to digest them)
@@ -279,9 +283,9 @@ static std::string render_mps(const LP &m, long style) {
 		if (!any) s += " " + c.name + " obj 0\n"; }
 	if (in_int) s += " MARKER MARKER 'INTEND'\n";
 	if (sos && sos_b >= m.cols.size()) s += sos_tag + "'SOSEND'\n";
-	s += "RHS\n"; for (auto &r : m.rows) if (r.rhs != 0) s += " RHS " + r.name + " " + lit(r.rhs, style) + "\n";
+	s += "RHS\n"; for (size_t i = 0; i < m.rows.size(); i++) { const MRow &r = m.rows[i]; Q rhs = r.rhs; if (r.sense == 'R') { int f = rform(i); if (f == 1 || f == 2 || f == 4) rhs = r.rhs + r.range; } if (rhs != 0) s += " RHS " + r.name + " " + lit(rhs, style) + "\n"; }
 	bool anyr = false; for (auto &r : m.rows) if (r.sense == 'R') anyr = true;
-	if (anyr) { s += "RANGES\n"; for (auto &r : m.rows) if (r.sense == 'R') s += " RNG " + r.name + " " + lit(r.range, style) + "\n"; }
+	if (anyr) { s += "RANGES\n"; for (size_t i = 0; i < m.rows.size(); i++) { const MRow &r = m.rows[i]; if (r.sense != 'R') continue; int f = rform(i); Q w = r.range; if (f == 2 || f == 4) w = -w; s += " RNG " + r.name + " " + lit(w, style) + "\n"; } }
 	s += "BOUNDS\n";
 	for (size_t jj = 0; jj < m.cols.size(); jj++) { const MCol &c = m.cols[jj]; bool marked_int = ints && (jj + (size_t)(style / 4)) % 3 == 0;
 		if (!c.lo.fin() && !c.up.fin()) s += " FR BND " + c.name + "\n"; else if (c.lo.fin() && c.up.fin() && c.lo.v == c.up.v) s += " FX BND " + c.name + " " + lit(c.lo.v, style) + "\n";
@@ -302,6 +306,9 @@ void Exec::op_foreign(Client &c) {
 	FileInfo f; f.fmt = fmt; f.model = *lp; f.kind = "prob"; f.damaged = true; f.foreign = true; { long st = op->i("style", 0); f.sos = fmt == "MPS" && st % 13 == 7 && st % 4 != 1 && lp->cols.size() >= 2; }   // "damaged": the round-trip law of C08/C09 is about the library's own writer only
 	files[path] = f; prob_paths.erase(std::remove(prob_paths.begin(), prob_paths.end(), path), prob_paths.end()); prob_paths.push_back(path);
 	T(strf("  foreign %s %s %d bytes hash=%s", fmt.c_str(), path.c_str(), (int)text.size(), hex64(hashstr(text)).c_str()));
+	if (trace) { int ln = 0; for (auto &l : split(text, '\n')) { if (ln++ > 80) break; out_line("F   " + l.substr(0, 300)); } }
+	// does the text denote exactly the model?  not when the MPS rendering repeats an entry (what a repeated entry means is not defined)
+	files[path].precond = !(fmt == "MPS" && modn(op->i("style", 0), 11) == 5);
 }
 
 // ------------------------------------------------------------------ basis files (C14)
